@@ -57,6 +57,9 @@ def cases(tier, seed):
                     preflat=False, wl_from_data=False, theory="Mie", fit_lens_angle=False, det_z=0.0, flat_then_npixels=False, seed=[seed, "zupper", 0]))
     out.append(dict(out[-1], id="fit-zupper-guess-nmpfit", z_guess_on_bound=True, seed=[seed, "zupper", 1]))
     out.append({"id": "fit-shortcut", "kind": "shortcut", "strategy": "nmpfit", "subset": False, "cost": 10})
+    # ways of using a strategy object: verbose output switched on, its public minimiser called directly twice, one free parameter
+    for j, strat in enumerate(["nmpfit", "scipy"]):
+        out.append({"id": "fit-forms-%s" % strat, "kind": "forms", "strategy": strat, "subset": False, "cost": 10, "seed": [seed, "forms", j]})
     for which in ("lower_edge_all_steps_negative", "rejected_trial_step"):
         out.append({"id": "fit-recorded-%s" % which, "kind": "recorded", "which": which, "strategy": "nmpfit", "subset": False, "cost": 10})
     for edge in ("upper", "lower"):
@@ -172,7 +175,64 @@ def _run_shortcut(case):
     return {"resid": {}, "flags": flags, "got": got, "truth": None, "err": err}
 
 
+def _run_forms(case):
+    import contextlib
+    import io as _io
+    import holopy as hp
+    from holopy.core.prior import Uniform
+    from holopy.core.metadata import detector_grid, update_metadata
+    from holopy.inference import AlphaModel, NmpfitStrategy, LeastSquaresScipyStrategy
+    from holopy.scattering import Sphere, calc_holo
+    from vf.monitors import digest
+    rng = rng_for(*case["seed"])
+    nm = case["strategy"] == "nmpfit"
+    det = update_metadata(detector_grid(shape=(22, 20), spacing=0.1), medium_index=1.33, illum_wavelen=0.66, illum_polarization=(1, 0), noise_sd=0.05)
+    truth = {"r": float(rng.uniform(0.4, 0.7)), "z": float(rng.uniform(6, 12)), "x": 1.05, "y": 0.95}
+    data = calc_holo(det, Sphere(n=1.59, r=truth["r"], center=(truth["x"], truth["y"], truth["z"])), scaling=1.0)
+    flags, resid = {}, {}
+    mk = (lambda **k: NmpfitStrategy(**k)) if nm else (lambda **k: LeastSquaresScipyStrategy(**{a: b for a, b in k.items() if a != "quiet"}))
+    # (a) priors without names (the usual way to write a model), verbose output on: the same fit as with the output off
+    def model4():
+        return AlphaModel(Sphere(n=1.59, r=Uniform(0.3, 0.9, guess=truth["r"] * 1.02), center=[Uniform(0, 2, guess=1.03), Uniform(0, 2, guess=0.97), Uniform(4, 14, guess=truth["z"] * 0.99)]),
+                          alpha=1.0, noise_sd=0.05)
+    quiet = hp.fit(data, model4(), strategy=mk(quiet=True))
+    if nm:
+        sink = _io.StringIO()
+        with contextlib.redirect_stdout(sink):
+            loud = hp.fit(data, model4(), strategy=mk(quiet=False))
+        flags["verbose_fit_equals_quiet_fit"] = bool(list(loud.parameters.values()) == list(quiet.parameters.values()))
+        flags["verbose_fit_reports_its_iterations"] = bool(len(sink.getvalue()) > 0)
+    # (b) the strategy's public minimiser called directly, twice, with different parameters: the second answer is that of a fresh object
+    if nm:
+        def quad(target):
+            return lambda v: np.array([v[0] - target[0], v[1] - target[1], 0.0])
+        s_ = NmpfitStrategy()
+        p1 = [Uniform(0, 10, guess=3.3), Uniform(0, 10, guess=6.1)]
+        p2 = [Uniform(0, 100, guess=41.0), Uniform(0, 100, guess=77.0)]
+        a1, _ = s_.minimize(p1, quad([3.0, 6.0]))
+        a2, _ = s_.minimize(p2, quad([40.0, 80.0]))
+        f2, _ = NmpfitStrategy().minimize(p2, quad([40.0, 80.0]))
+        flags["direct_minimize_twice_equals_fresh"] = bool(list(a2) == list(f2) and max(abs(a2[0] - 40.0), abs(a2[1] - 80.0)) < 1e-6 and max(abs(a1[0] - 3.0), abs(a1[1] - 6.0)) < 1e-6)
+        before = digest(s_._dict)
+        flags["direct_minimize_leaves_settings"] = bool(digest(NmpfitStrategy()._dict) == before)
+    # (c) ONE free parameter (recovery is promised for position, radius and scaling free; here: never worse than the guess, inside its
+    # bounds; the error is recorded)
+    for which in ("z", "r"):
+        pr = Uniform(truth[which] * 0.8, truth[which] * 1.2, guess=truth[which] * 1.02)
+        sph = Sphere(n=1.59, r=pr if which == "r" else truth["r"], center=[truth["x"], truth["y"], pr if which == "z" else truth["z"]])
+        m1 = AlphaModel(sph, alpha=1.0, noise_sd=0.05)
+        r1 = hp.fit(data, m1, strategy=mk(quiet=True))
+        v = list(r1.parameters.values())[0]
+        chi = lambda x: float(((m1.forward([x], data).values - data.values) ** 2).sum())
+        resid["one_free_parameter_error@" + which] = fnum(abs(v - truth[which]) / truth[which])
+        flags["one_free_parameter_not_worse_than_guess@" + which] = bool(chi(v) <= chi(pr.guess) * (1 + 1e-9))
+        flags["one_free_parameter_within_bounds@" + which] = bool(pr.lower_bound <= v <= pr.upper_bound)
+    return {"resid": resid, "flags": flags, "got": None, "truth": truth}
+
+
 def run_case(case):
+    if case.get("kind") == "forms":
+        return _run_forms(case)
     if case.get("kind") == "pegged":
         return _run_pegged(case)
     if case.get("kind") == "shortcut":
@@ -380,7 +440,7 @@ def run_case(case):
 
 # ------------------------------------------------------------------ oracle
 
-TOL = {"fixed_point": 1e-9, "fixed_point@second_dataset": 1e-9, "recovery": 1e-6, "recovery_with_free_lens_angle": float("inf"), "misfit_ratio_minus_1": 1e-9, "hologram_is_forward": 1e-10, "hologram_vs_model_forward": 1e-10, "guess_hologram_vs_model_forward": 1e-10,
+TOL = {"one_free_parameter_error": float("inf"), "fixed_point": 1e-9, "fixed_point@second_dataset": 1e-9, "recovery": 1e-6, "recovery_with_free_lens_angle": float("inf"), "misfit_ratio_minus_1": 1e-9, "hologram_is_forward": 1e-10, "hologram_vs_model_forward": 1e-10, "guess_hologram_vs_model_forward": 1e-10,
        "max_lnprob": 1e-10, "reload_hologram": 1e-12, "reload_second_result_hologram": 1e-12, "reload_data": 0.0, "second_fit_diff": 0.0}
 
 
